@@ -150,7 +150,11 @@ def gen_type(H: Chooser, feat, refs, level=0, allow_dependent_on=None, finite=Fa
         return ["ann", ["list", inner], gen_list_refinement(H)]
     if k == "tuple":
         n = 1 + H.draw(3)
-        return ["tuple", [gen_type(H, feat, refs, level + 2, finite=finite) for _ in range(n)]]
+        elems = [gen_type(H, feat, refs, level + 2, finite=finite) for _ in range(n)]
+        if feat.get("nested_generic") and refs and H.draw(4) == 0:
+            # a union as an element of the tuple: tuple[bool, Union[float, A]]
+            elems[H.draw(n)] = ["union", [["cls", H.pick(refs)], H.pick([["float"], ["bool"], ["int"]])]]
+        return ["tuple", elems]
     if k == "union":
         n = 2 + H.draw(2)
         alts = []
